@@ -20,7 +20,7 @@ RULE = ("programs consisting only of read operations (item access, get, len, ite
         "hash; non-trivial = >= 5 reads executed (and for buffered classes >= 1 context entered).")
 ASSUMPTIONS = ["Redis/MongoDB/Zarr: write detection = write-call counters of the in-process fakes"]
 STRATA = ["existing", "missing"]
-PER = {"quick": {"existing": 60, "missing": 25}, "thorough": {"existing": 1500, "missing": 500}}
+PER = {"quick": {"existing": 300, "missing": 100}, "thorough": {"existing": 1500, "missing": 500}}
 
 
 def plan(tier, seed):
